@@ -671,3 +671,212 @@ def accessor_faithful(ctx, rule, fn, field, mode="field", key_param=2):
     ctx.check(ok, rule, fn, "returns-%s" % field, "returns %s unchanged" % want,
               "%s %s; the property is observed through this accessor, which must return %s unchanged" % (fn, why, want), fn_span(body) if body else "")
 
+
+# ---------------------------------------------------------------- substrings (split idioms in one normal form)
+
+CONTENT_VIEWS = ("::to_string", "String as std::convert::From<&str>>::from", "::to_owned", "Deref>::deref", "::as_str", "AsRef", "::as_ref",
+                 "Borrow", "::borrow", "Clone>::clone", "Into<", "::into", "String::as_str", "::as_mut_str", "From<&str>>::from", "From<&String>>::from")
+ZERO, LEN = ("zero",), ("len",)
+
+
+def content(t):
+    """strip references and content-preserving conversions (&str <-> String, deref, clone ...)"""
+    t = strip_refs(t)
+    for _ in range(16):
+        if is_call(t, *CONTENT_VIEWS) and call_args(t):
+            t = strip_refs(call_args(t)[0])
+            continue
+        if isinstance(t, tuple) and t and t[0] == "deref":
+            t = strip_refs(t[1])
+            continue
+        break
+    return t
+
+
+def is_empty_str(t):
+    t0 = strip_refs(t)
+    if is_call(t0, "String::new"):
+        return True
+    c = content(t)
+    return const_str(c) == ""
+
+
+def _sep(t):
+    return const_char(t) if const_char(t) is not None else const_str(t)
+
+
+def _search_pos(t, subject):
+    """position term relative to `subject`: ZERO, LEN, ('const', n), ('find'|'rfind', sep, k)"""
+    t = strip_refs(t)
+    k = 0
+    for _ in range(4):
+        if isinstance(t, tuple) and t and t[0] == "binop" and t[1] == "Add" and const_int(t[3]) is not None:
+            k += const_int(t[3])
+            t = strip_refs(t[2])
+        elif isinstance(t, tuple) and t and t[0] == "binop" and t[1] == "Add" and const_int(t[2]) is not None:
+            k += const_int(t[2])
+            t = strip_refs(t[3])
+        else:
+            break
+    n = const_int(t)
+    if n is not None:
+        return ZERO if n + k == 0 else ("const", n + k)
+    if is_call(t, "::len") and content(call_args(t)[0]) == subject and k == 0:
+        return LEN
+    if isinstance(t, tuple) and t and t[0] == "field" and t[2] == 0 and isinstance(t[1], tuple) and t[1][0] == "downcast" and t[1][2] in ("Some", "Continue"):
+        src = strip_refs(t[1][1])
+        if t[1][2] == "Continue":
+            # `s.rfind(c)?` : the Continue payload of Try::branch is the Some payload
+            if not (is_call(src, "Try>::branch") and "Option<" in src[1]):
+                return None
+            src = strip_refs(call_args(src)[0])
+        if is_call(src, "str>::rfind", "str>::find") and content(call_args(src)[0]) == subject:
+            return (_api_name(src), _sep(call_args(src)[1]), k)
+    return None
+
+
+def _compose(inner, outer):
+    """outer = (start, end) relative to the substring inner = (S, start, end)"""
+    S, a, b = inner
+    os_, oe = outer
+    if a == ZERO and b == LEN:
+        return (S, os_, oe)
+
+    def shift(pos, by):
+        if by == ZERO:
+            return pos
+        if by[0] == "const":
+            if pos == ZERO:
+                return by
+            if pos[0] == "const":
+                return ("const", pos[1] + by[1])
+            if pos[0] in ("find", "rfind"):
+                return (pos[0], pos[1], pos[2] + by[1])
+        return None
+    st = shift(a, os_) if os_ == ZERO or os_[0] == "const" else None
+    if oe == LEN:
+        en = b
+    elif oe == ZERO or oe[0] == "const":
+        en = shift(a, oe)
+    else:
+        en = None
+    if st is None or en is None:
+        return None
+    return (S, st, en)
+
+
+def substr(term, depth=0):
+    """(subject, start, end): `term` denotes subject[start..end], positions relative to the subject; None if it is not a recognisable
+    substring.  All the two-way split idioms normalise to this: rsplit_once / split_once parts, rfind|find + split_at, slicing with
+    ranges built from a search result (+ constant), indexed rsplitn(2)/splitn(2) collections, and slices of such parts."""
+    if depth > 6:
+        return None
+    t = content(term)
+    if not isinstance(t, tuple) or not t:
+        return None
+    # (S.rsplit_once(sep) as Some).0.i
+    if t[0] == "field" and isinstance(t[1], tuple) and t[1] and t[1][0] == "field" and t[1][2] == 0 and isinstance(t[1][1], tuple) and t[1][1][0] == "downcast" and t[1][1][2] == "Some":
+        src = strip_refs(t[1][1][1])
+        if is_call(src, "str>::split_once", "str>::rsplit_once"):
+            S = content(call_args(src)[0])
+            sep = _sep(call_args(src)[1])
+            how = "rfind" if _api_name(src) == "rsplit_once" else "find"
+            if sep is not None:
+                inner = (S, ZERO, (how, sep, 0)) if t[2] == 0 else (S, (how, sep, len(sep.encode("utf-8"))), LEN)
+                return inner
+    # S.split_at(pos).i
+    if t[0] == "field" and is_call(strip_refs(t[1]), "str>::split_at", "[T]>::split_at"):
+        sa = call_args(strip_refs(t[1]))
+        base = substr(sa[0], depth + 1) or (content(sa[0]), ZERO, LEN)
+        pos = _search_pos(sa[1], content(sa[0]))
+        if pos is not None:
+            if pos == ZERO or pos[0] == "const":
+                return _compose(base, (ZERO, pos) if t[2] == 0 else (pos, LEN))
+            return (content(sa[0]), ZERO, pos) if t[2] == 0 else (content(sa[0]), pos, LEN)
+        return None
+    # S[a..b]
+    if is_index_call(t):
+        a = call_args(t)
+        rg = agg_variant(a[1])
+        if rg and rg[1] in ("Range", "RangeFrom", "RangeTo", "RangeFull"):
+            subj = content(a[0])
+            base = substr(a[0], depth + 1) or (subj, ZERO, LEN)
+            lo = _search_pos(rg[2][0], subj) if rg[1] in ("Range", "RangeFrom") else ZERO
+            hi = _search_pos(rg[2][1 if rg[1] == "Range" else 0], subj) if rg[1] in ("Range", "RangeTo") else LEN
+            if lo is not None and hi is not None:
+                if all(x in (ZERO, LEN) or x[0] == "const" for x in (lo, hi)):
+                    return _compose(base, (lo, hi))      # a pure offset into a part: still a part of the outer subject
+                return (subj, lo, hi)                    # positions found by searching the immediate subject
+            return None
+        # v[i] with v = S.rsplitn(2, sep).collect() / S.splitn(2, sep).collect()
+        idx = const_int(a[1])
+        vec = strip_refs(a[0])
+        if idx is not None and is_call(vec, "::collect"):
+            src = strip_refs(call_args(vec)[0])
+            if is_call(src, "str>::splitn", "str>::rsplitn") and const_int(call_args(src)[1]) == 2:
+                S = content(call_args(src)[0])
+                sep = _sep(call_args(src)[2])
+                if sep is not None and idx in (0, 1):
+                    if _api_name(src) == "rsplitn":
+                        return (S, ("rfind", sep, len(sep.encode("utf-8"))), LEN) if idx == 0 else (S, ZERO, ("rfind", sep, 0))
+                    return (S, ZERO, ("find", sep, 0)) if idx == 0 else (S, ("find", sep, len(sep.encode("utf-8"))), LEN)
+    return None
+
+
+def substr_role(ss):
+    """('prefix'|'suffix'|'whole'|'other', how, sep): which side of which occurrence of which separator"""
+    if ss is None:
+        return ("none", None, None)
+    S, a, b = ss
+    if a == ZERO and b == LEN:
+        return ("whole", None, None)
+    if a == ZERO and isinstance(b, tuple) and b[0] in ("find", "rfind") and b[2] == 0:
+        return ("prefix", b[0], b[1])
+    if b == LEN and isinstance(a, tuple) and a[0] in ("find", "rfind") and a[1] is not None and a[2] == len(a[1].encode("utf-8")):
+        return ("suffix", a[0], a[1])
+    return ("other", None, None)
+
+
+def search_outcome(p, subject_pred, sep):
+    """did the path assume that `sep` occurs in the subject?  True / False / None (no such condition on the path).
+    Recognised tests: discr(S.rsplit_once|split_once|rfind|find(sep)), len(S.rsplitn|splitn(2, sep).collect()) == 2, S.contains(sep)."""
+    res = None
+    for c in p.conds():
+        t = c.term
+        if isinstance(t, tuple) and t and t[0] == "discr" and is_call(strip_refs(t[1]), "str>::rsplit_once", "str>::split_once", "str>::rfind", "str>::find"):
+            src = strip_refs(t[1])
+            if _sep(call_args(src)[1]) == sep and subject_pred(content(call_args(src)[0])):
+                if c.fact[0] == "eq":
+                    res = c.fact[1] == 1
+                elif 1 in c.fact[1]:
+                    res = False
+                elif 0 in c.fact[1]:
+                    res = True
+        elif isinstance(t, tuple) and t and t[0] == "binop" and t[1] in ("Eq", "Ne") and const_int(t[3]) == 2 and is_call(strip_refs(t[2]), "::len"):
+            v = strip_refs(call_args(strip_refs(t[2]))[0])
+            if is_call(v, "::collect"):
+                src = strip_refs(call_args(v)[0])
+                if is_call(src, "str>::splitn", "str>::rsplitn") and const_int(call_args(src)[1]) == 2 and _sep(call_args(src)[2]) == sep and subject_pred(content(call_args(src)[0])):
+                    res = (c.fact == ("eq", True)) == (t[1] == "Eq")
+        elif is_call(t, "str>::contains") and _sep(call_args(t)[1]) == sep and subject_pred(content(call_args(t)[0])):
+            res = c.fact == ("eq", True)
+    return res
+
+
+def substr_in_bounds(ss):
+    """the slice subject[start..end] cannot be out of range or off a character boundary: each end is 0, len, or a position found by
+    searching that same subject for a non-empty separator, moved by nothing or by exactly the separator's UTF-8 length; and not two
+    different searched positions (their order is unknown)"""
+    if ss is None:
+        return False
+    S, a, b = ss
+
+    def ok(pos):
+        if pos in (ZERO, LEN):
+            return True
+        return isinstance(pos, tuple) and pos[0] in ("find", "rfind") and bool(pos[1]) and pos[2] in (0, len(pos[1].encode("utf-8")))
+    if not (ok(a) and ok(b)):
+        return False
+    searched = [x for x in (a, b) if x not in (ZERO, LEN)]
+    return len(searched) <= 1
+
